@@ -274,10 +274,10 @@ def showMarks (m : List String) : String := "m=" ++ String.intercalate "," (sort
 def showResult (s : State) (r : Result) (targets : List String) : String :=
   let dumps := String.intercalate " " ((sortStrs targets).map (dumpOf s.tables))
   match r with
-  | .error e => (s!"E{e.code} {showMarks s.marks} {dumps}").trimRight
+  | .error e => (s!"E{e.code} {showMarks s.marks} {dumps}").trimAsciiEnd.toString
   | .ok counts =>
     let cs := sortStrs (counts.map fun c => s!"{c.1}:{c.2}")
-    (s!"ok {String.intercalate "," cs} {showMarks s.marks} {dumps}").trimRight
+    (s!"ok {String.intercalate "," cs} {showMarks s.marks} {dumps}").trimAsciiEnd.toString
 
 /-- REPLACE's key equivalence: SortValues.EquivalentTo on NewSortValue of the cells -/
 def keqSort (a b : List Cell) : Bool :=
